@@ -213,10 +213,11 @@ pub const BIG: usize = 70 * 1024;
 pub const N_CONTENT_KINDS: usize = 4;
 
 /// Content kinds: 0 empty, 1 short (its own path), 2 70 KiB of highly compressible text,
-/// 3 70 KiB of poorly compressible text: xorshift64* output mapped onto a 64-symbol ASCII alphabet
-/// (6 bits of entropy per byte; deflate leaves > 50 KiB, i.e. more than any 32 KiB decoder buffer),
-/// seeded by the path.  Everything is valid UTF-8 (one asset type goes through the string loader).
-pub fn make_content(kind: usize, rel: &str) -> Vec<u8> {
+/// 3 70 KiB of xorshift64* output seeded by the path: raw bytes (incompressible: deflate falls back
+/// to stored blocks, the stream is > 70 KiB) or, with `utf8` (c11: one asset type goes through the
+/// string loader, so everything must be valid UTF-8), mapped onto a 64-symbol ASCII alphabet
+/// (6 bits of entropy per byte; deflate leaves > 50 KiB, still more than a 32 KiB decoder buffer).
+pub fn make_content(kind: usize, rel: &str, utf8: bool) -> Vec<u8> {
     match kind % N_CONTENT_KINDS {
         0 => Vec::new(),
         1 => format!("<{rel}>").into_bytes(),
@@ -250,9 +251,13 @@ pub fn make_content(kind: usize, rel: &str) -> Vec<u8> {
                 x ^= x << 25;
                 x ^= x >> 27;
                 let mut r = x.wrapping_mul(0x2545F4914F6CDD1D);
-                for _ in 0..8 {
-                    v.push(ALPHA[(r >> 58) as usize]);
-                    r <<= 6;
+                if utf8 {
+                    for _ in 0..8 {
+                        v.push(ALPHA[(r >> 58) as usize]);
+                        r <<= 6;
+                    }
+                } else {
+                    v.extend_from_slice(&r.to_le_bytes());
                 }
             }
             v.truncate(BIG);
@@ -264,10 +269,10 @@ pub fn make_content(kind: usize, rel: &str) -> Vec<u8> {
 impl Tree {
     /// `name_rot`: class i gets NAMES[(i + name_rot) % 4]; `content_rot`: file j (depth-first order)
     /// gets content kind (j + content_rot) % 4 of {empty, short, 70 KiB compressible, 70 KiB incompressible}.
-    pub fn instantiate(shape: &[Node], name_rot: usize, content_rot: usize) -> Tree {
+    pub fn instantiate(shape: &[Node], name_rot: usize, content_rot: usize, utf8: bool) -> Tree {
         let nm = names();
         let mut t = Tree { files: vec![], dirs: vec![] };
-        fn walk(s: &[Node], comps: &mut Vec<String>, nm: &[String; 4], rot: usize, crot: usize, t: &mut Tree) {
+        fn walk(s: &[Node], comps: &mut Vec<String>, nm: &[String; 4], rot: usize, crot: usize, utf8: bool, t: &mut Tree) {
             for n in s {
                 match n {
                     Node::F(a, e) => {
@@ -276,19 +281,19 @@ impl Tree {
                         let mut idc = comps.clone();
                         idc.push(stem.clone());
                         let mut f = TFile { dir: comps.clone(), stem, ext, id: idc.join("."), content: vec![] };
-                        f.content = make_content(t.files.len() + crot, &f.rel());
+                        f.content = make_content(t.files.len() + crot, &f.rel(), utf8);
                         t.files.push(f);
                     }
                     Node::D(a, c) => {
                         comps.push(nm[(*a as usize + rot) % 4].clone());
                         t.dirs.push(TDir { comps: comps.clone(), id: comps.join("."), empty: c.is_empty() });
-                        walk(c, comps, nm, rot, crot, t);
+                        walk(c, comps, nm, rot, crot, utf8, t);
                         comps.pop();
                     }
                 }
             }
         }
-        walk(shape, &mut vec![], &nm, name_rot, content_rot, &mut t);
+        walk(shape, &mut vec![], &nm, name_rot, content_rot, utf8, &mut t);
         t
     }
 
